@@ -69,8 +69,8 @@ PROPS = {
         'families': [{'name': 'verify', 'shards': {'quick': 4, 'thorough': 16}, 'seeds': {'quick': 1, 'thorough': 2}},
                      {'name': 'verifyexh', 'shards': {'quick': 8, 'thorough': 16}}],
         'kinds': ['verify', 'sound', 'pverify'],
-        'lean_modules': ['UtreexoVerif.Props.C03', 'UtreexoVerif.Props.C03b', 'UtreexoVerif.Props.C03c'],
-        'theorems': ['UtreexoVerif.Props.C03.verify_sound', 'UtreexoVerif.Props.C03.pollardVerify_sound',
+        'lean_modules': ['UtreexoVerif.Props.C03', 'UtreexoVerif.Props.C03b', 'UtreexoVerif.Props.C03c', 'UtreexoVerif.Props.C03x', 'UtreexoVerif.Props.C03xc'],
+        'theorems': ['UtreexoVerif.Props.C03x.' + t for t in ['verify_sound_extract', 'verify_sound_extract_strong', 'verify_sound_extract_full', 'verify_sound_extract_at', 'pollardVerify_sound_extract', 'mapVerify_sound_extract', 'verify_extracts', 'collision_iff_findCollision', 'verify_sound_extract_leafOK', 'verify_sound_extract_hyg', 'collision_iff_foreign_pair', 'ForestHyg.of_CR', 'not_collision_of_CR', 'verify_sound_of_CR', 'pollardVerify_sound_of_CR', 'mapVerify_sound_of_CR', 'verify_sound_spec_statement_of_extract', 'stump_delSt_sound_extract', 'stump_update_sound_extract', 'trueClaim_iff', 'Example.not_CR', 'Example.acceptedB', 'Example.falseB', 'Example.collisionB', 'Example.collisionB_witness', 'Example.confusion', 'Example.two_disjuncts_insufficient', 'Example.trueA', 'Example.no_collisionA']] + ['UtreexoVerif.Props.C03xc.' + t for t in ['mapVerify_sound_any_extract', 'mapVerify_sound_below_extract', 'mapVerifyPartialProof_sound_extract', 'verifyM_sound_extract', 'verifyPartialProof_sound_extract', 'verifyPartialProof_sound_inv_below_extract', 'mapVerifyPartialProof_sound_statement_of_extract', 'Example.partial_collision']] + ['UtreexoVerif.Proofs.CalcSoundX.calculateHashesX_fst', 'UtreexoVerif.Proofs.CalcSoundX.calc_sound_x'] + ['UtreexoVerif.Props.C03.verify_sound', 'UtreexoVerif.Props.C03.pollardVerify_sound',
                      'UtreexoVerif.Props.C03.mapVerify_sound', 'UtreexoVerif.Proofs.CalcSound.calc_sound'] +
                     ['UtreexoVerif.Props.C03b.' + t for t in ['verify_sound_spec_full', 'pollardVerify_sound_spec_full',
                      'mapVerify_sound_spec_full', 'verify_sound_spec', 'pollardVerify_sound_spec', 'mapVerify_sound_spec',
